@@ -107,6 +107,7 @@ def format_rules(an: Analysis, rep):
         rep.run(r101, an, rep, collapse, expand, fmt, is_lt, lim)
         rep.run(r102, an, rep, expand, fmt, is_lt, lim)
         rep.run(r103, an, rep, collapse, expand, fmt, is_lt)
+    rep.run(r101_body, an, rep, collapse)
     rep.run(r104, an, rep, b2i, i2b)
     rep.run(r102_siblings, an, rep, expand)
     rep.run(r102_order, an, rep, expand)
@@ -241,6 +242,46 @@ def r101(an, rep, collapse, expand, fmt, is_lt, lim):
             f"collapse merges at line delta {sorted(Lc)}, expand emits {sorted(Le)}, CPython's limits are {sorted(wantL)}" if Lc == Le == wantL else
             f"[{fmt}] collapse_items merges when the previous line delta is in {sorted(Lc)} (domain {lim['min_line']}..{lim['max_line']}), expand_items emits {sorted(Le)}, "
             f"CPython's assembler splits at {sorted(wantL)}", config=fmt)
+
+
+def r101_body(an, rep, collapse):
+    """What happens when two entries are merged: the statements under the merge test are folded over witness entry pairs - the merged entry carries the sum of both
+    address deltas and the sum of both line deltas, whatever their sign (a backward jump split into (-128)(-22) is -150)."""
+    from sa.feval import BlockOutcome, FevalError, Obj, ObjEval
+    ifn, (p1, p2) = _merge_predicates(collapse)
+    cur, prev = _item_names(collapse)
+    names = {n.id for b in ifn.body for n in ast.walk(b) if isinstance(n, ast.Name)}
+    lists = sorted(n for n in names if n not in (cur, prev) and any(isinstance(x, ast.Delete) and any(isinstance(t, ast.Subscript) and isinstance(t.value, ast.Name) and t.value.id == n
+                                                                                                 for t in x.targets) for b in ifn.body for x in ast.walk(b)))
+    idx = sorted({t.slice.id for b in ifn.body for x in ast.walk(b) if isinstance(x, ast.Delete) for t in x.targets if isinstance(t, ast.Subscript) and isinstance(t.slice, ast.Name)})
+    bad = []
+    W = [(127, 5, 0, 4), (-128, -22, 0, 6), (-127, -10, 0, 0), (127, 127, 0, 0), (0, 0, 255, 10), (7, 0, 254, 10), (0, 7, 255, 10), (None, None, 254, 46)]
+    for l1, l2, b1, b2 in W:
+        ev = ObjEval(lambda name: None, extra={})
+        ev.module_assigns = collapse.module.assigns
+        pi, ci_ = Obj({"line_offset": l1, "bytecode_offset": b1}), Obj({"line_offset": l2, "bytecode_offset": b2})
+        env = {prev: pi, cur: ci_}
+        for ln in lists:
+            env[ln] = [pi, ci_]
+        for ix in idx:
+            env[ix] = 1
+        try:
+            ev.exec(ifn.body, env)
+        except BlockOutcome as o:
+            bad.append(f"merging ({b1}, {l1}) and ({b2}, {l2}) stops at `{norm_src(o.node)[:50]}`")
+            continue
+        except (FevalError, KeyError, TypeError, IndexError) as ex:
+            raise AnalysisError(f"{collapse.qual}: the statements that merge two entries are not evaluable ({ex})")
+        want_l = l1 if not l2 else (l1 + l2)
+        want_b = b1 + b2
+        got = (pi["bytecode_offset"], pi["line_offset"])
+        removed = all(len(env[ln]) == 1 for ln in lists)
+        if got != (want_b, want_l) or not removed:
+            bad.append(f"merging ({b1}, {l1}) and ({b2}, {l2}) gives {got}" + ("" if removed else " and keeps both entries") + f", expected ({want_b}, {want_l})")
+    rep.add("R10.1", f"{collapse.qual}::a merged entry carries the sums of both deltas", not bad, loc(collapse.module, ifn),
+            f"{len(W)} witness pairs (forward and backward line splits, address splits, a no-line continuation): the deltas add up and the second entry is removed" if not bad else
+            f"{bad[0]}: the pieces of a split delta do not add up again (a call whose arguments span 150 lines jumps back by -150 = (-128)(-22)), so the decoded lines are wrong and the table is "
+            f"not reproduced")
 
 
 def _expand_constants(expand: FunctionInfo, is_lt: bool) -> Dict[str, object]:
